@@ -151,7 +151,14 @@ class StatelessClassRule(BaseLintRule):  # thailint: ignore[srp,dry]
             StatelessClassConfig instance
         """
         if not hasattr(context, "config") or context.config is None:
-            return StatelessClassConfig()
+            # Production contexts carry the loaded configuration as metadata
+            metadata = getattr(context, "metadata", None)
+            if not isinstance(metadata, dict):
+                return StatelessClassConfig()
+            section = metadata.get("stateless_class", metadata.get("stateless-class"))
+            if not isinstance(section, dict):
+                return StatelessClassConfig()
+            return StatelessClassConfig.from_dict(section)
 
         config_dict = context.config
         if not isinstance(config_dict, dict):
